@@ -345,21 +345,29 @@ def edit_constant(parameterized):
     kls_params = parameterized.param.objects(instance=False)
     inst_params = parameterized._param__private.params
     updated = []
-    for pname, pobj in (kls_params | inst_params).items():
-        if pobj.constant:
-            # Only this object becomes editable: use its own copy of the
-            # Parameter (created on demand) and leave alone the class-level
-            # Parameter, which all other instances and subclasses share. The
-            # class-level one is only used where instance Parameters are
-            # not supported.
-            pobj = parameterized.param[pname]
-            pobj.constant = False
-            updated.append(pobj)
     try:
+        for pname, pobj in (kls_params | inst_params).items():
+            if pobj.constant:
+                # Only this object becomes editable: use its own copy of the
+                # Parameter (created on demand) and leave alone the class-level
+                # Parameter, which all other instances and subclasses share. The
+                # class-level one is only used where instance Parameters are
+                # not supported.
+                pobj = parameterized.param[pname]
+                updated.append(pobj)
+                pobj.constant = False
         yield
     finally:
+        # Every flag is put back, also when a watcher of the 'constant'
+        # attribute raises on the way
+        failure = None
         for pobj in updated:
-            pobj.constant = True
+            try:
+                pobj.constant = True
+            except BaseException as e:
+                failure = failure or e
+        if failure is not None:
+            raise failure
 
 
 @contextmanager
